@@ -308,7 +308,7 @@ fn std_locs() -> Vec<Vec<MLoc>> {
 /// the referenced entries B, C and the whole second unit.
 ///
 /// unit0: 0 root{type->B} 1 T(base_type) 2 A{TEST, sibling}(3 A1) 4 B 5 C{type->B, origin->u1.D}
-/// unit1: 0 root 1 D{origin->u0.B, spec->u0.C}
+/// unit1: 0 root{type->D} 1 D{origin->u0.B, spec->u0.C, type->root}
 fn variant_model(enc0: Enc, enc1: Enc, test: &(u16, MV)) -> Model {
     let forest0 = [usize::MAX, usize::MAX, 1, usize::MAX, usize::MAX];
     let tags0 = [TAG_COMPILE_UNIT, TAG_BASE_TYPE, TAG_SUBPROGRAM, TAG_FORMAL_PARAMETER, TAG_VARIABLE, TAG_VARIABLE];
@@ -324,6 +324,9 @@ fn variant_model(enc0: Enc, enc1: Enc, test: &(u16, MV)) -> Model {
     let mut u1 = MUnit::from_forest(1, enc1, &[usize::MAX], |_| TAG_VARIABLE);
     u1.entries[1].attrs.push((AT_ABSTRACT_ORIGIN, MV::IRef(Ref::E(0, 4))));
     u1.entries[1].attrs.push((AT_SPECIFICATION, MV::IRef(Ref::E(0, 5))));
+    // unit-relative references in a unit that does not start at section offset 0
+    u1.entries[0].attrs.push((AT_TYPE, MV::URef(Ref::E(1, 1))));
+    u1.entries[1].attrs.push((AT_TYPE, MV::URef(Ref::E(1, 0))));
     Model { units: vec![u0, u1], syms: vec![0x4000, 0x5000, 0x6000] }
 }
 
@@ -650,7 +653,7 @@ fn sub_forest2(tier: Tier) -> Sub {
     Sub::new(
         &format!("b2-forest-2units-n<={}", nmax),
         len,
-        "two units, each root + every forest shape with <= N further entries x 32 encoding pairs (same / version-and-format-flipped) x endian; inside a case: all sibling subsets on unit 0 x none/all on unit 1 x both directions x every pair (i in source unit -> j in target unit) x {DebugInfoRef, DW_OP_call_ref, DW_OP_implicit_pointer} x target plain / reserved-then-added, plus reserved-never-added and added-then-deleted targets in the other unit",
+        "two units, each root + every forest shape with <= N further entries x 32 encoding pairs (same / version-and-format-flipped) x endian; inside a case: all sibling subsets on unit 0 x none/all on unit 1 x both directions x every pair (i in source unit -> j in target unit) x {DebugInfoRef, DW_OP_call_ref, DW_OP_implicit_pointer} x target plain / reserved-then-added, plus reserved-never-added and added-then-deleted targets in the other unit, plus every pair inside the second unit as UnitRef / DW_OP_call4 / DW_OP_deref_type",
         move |ctx, idx| {
             let mut mx = Mix(idx);
             let (e0, e1) = *mx.pick(&pairs);
@@ -667,6 +670,23 @@ fn sub_forest2(tier: Tier) -> Sub {
                     let mut u1 = b1.clone();
                     apply_siblings(&mut u0, mask0);
                     apply_siblings(&mut u1, if all1 { u64::MAX } else { 0 });
+                    // unit-relative references inside the second unit (its offset in the section is not 0)
+                    {
+                        let n1 = u1.entries.len();
+                        for i in 0..n1 {
+                            for j in 0..n1 {
+                                for kind in [RefKind::UnitRef, RefKind::ExprCall4, RefKind::ExprTyped] {
+                                    let mut us = [u0.clone(), u1.clone()];
+                                    us[1].entries[i].attrs.push(ref_attr(kind, Ref::E(1, j)));
+                                    let m = Model { units: us.to_vec(), syms: vec![] };
+                                    if judge(ctx, "Dwarf::write", &m, endian, Via::Dwarf) {
+                                        ctx.outcome(&format!("ref:{:?}:inside-second-unit", kind));
+                                    }
+                                    cases += 1;
+                                }
+                            }
+                        }
+                    }
                     for (su, tu) in [(0usize, 1usize), (1, 0)] {
                         let ns = if su == 0 { u0.entries.len() } else { u1.entries.len() };
                         let nt = if tu == 0 { u0.entries.len() } else { u1.entries.len() };
@@ -1245,6 +1265,9 @@ fn c11(tier: Tier) -> CheckDef {
             required.push(format!("ref:{}:{}", kind, dir));
         }
         required.push(format!("ref:{}:reserved-then-added", kind));
+    }
+    for kind in ["UnitRef", "ExprCall4", "ExprTyped"] {
+        required.push(format!("ref:{}:inside-second-unit", kind));
     }
     required.push("ref:ExprTyped:backward".into());
     required.push("ref:ExprTyped:self".into());
